@@ -3,7 +3,8 @@
     (linear maps of Optics/Maps.v) or Bmadx/SymplX*.v (non-linear Bmad-X maps), followed by [Print Assumptions]. *)
 From Coq Require Import Reals.
 From Coquelicot Require Import Coquelicot.
-From Cheetah Require Import Base.Mat Optics.Maps Optics.Sympl Optics.SymplProofs Bmadx.SymplX.
+From Cheetah Require Import Base.Mat Optics.Maps Optics.Sympl Optics.SymplProofs Bmadx.SymplX
+  Optics.UndFixed Optics.UndFixedSympl.
 Open Scope R_scope.
 
 (** what "symplectic" means here: M^T S6 M = S6 on the 6x6 linear part, with
@@ -186,6 +187,19 @@ Example C03_nonvacuous_dipole : forall E,
   symplectic (dip_map 0 (1/2) 0 0 0 0 0 0 0 E).
 Proof. exact nonvacuous_dipole. Qed.
 
+(** Undulator after the repair of finding F3 ([und_map_fixed] of Optics/Maps.v; equal to the drift map): symplectic,
+    affine, emittances kept.  [C03_sympl_undulator] / [C03_seventh_row_undulator] above are about the map before the
+    repair (symplectic as well: every R56 is).  harness/props/c03.py checks on every run which of the two the code computes. *)
+Theorem C03_undulator_fixed_is_drift : forall L E, und_map_fixed L E = drift_map L E.
+Proof. exact und_map_fixed_is_drift. Qed.
+Theorem C03_sympl_undulator_fixed : forall L E, symplectic (und_map_fixed L E).
+Proof. exact sympl_undulator_fixed. Qed.
+Theorem C03_seventh_row_undulator_fixed : forall L E, affine (und_map_fixed L E).
+Proof. exact seventh_row_undulator_fixed. Qed.
+Theorem C03_emit_undulator_fixed : forall L E Sg, cov7 Sg -> c0 (c1 Sg) = c1 (c0 Sg) -> c2 (c3 Sg) = c3 (c2 Sg) ->
+  emit_x2 (rcong (und_map_fixed L E) Sg) = emit_x2 Sg /\ emit_y2 (rcong (und_map_fixed L E) Sg) = emit_y2 Sg.
+Proof. exact emit_undulator_fixed. Qed.
+
 Print Assumptions C03_symplectic_means.
 Print Assumptions C03_form.
 Print Assumptions C03_affine_means.
@@ -237,3 +251,7 @@ Print Assumptions C03_coords_flip.
 Print Assumptions C03_dpz_ddelta.
 Print Assumptions C03_change_coords.
 Print Assumptions C03_quadx_block_det_partial.
+Print Assumptions C03_undulator_fixed_is_drift.
+Print Assumptions C03_sympl_undulator_fixed.
+Print Assumptions C03_seventh_row_undulator_fixed.
+Print Assumptions C03_emit_undulator_fixed.
